@@ -26,6 +26,8 @@ class SFP:
     def const(cls, v):
         if isinstance(v, SFP):
             return v.e
+        if hasattr(v, "unit"):            # astropy Quantity: let its own operators handle it
+            return None
         if isinstance(v, (bool, np.bool_)):
             v = int(v)
         if isinstance(v, (int, np.integer)):
